@@ -160,6 +160,9 @@ func confStream(rep *lib.Report, seed int64, nHist, nSteps int, write bool, only
 				lib.Must(h.c.NextBlock())
 				h.log = append(h.log, "next-block")
 			}
+			if r.Chance(14) || (i%2 == 0 && s == 2) { // every second history rotates a bridger early
+				h.editBridger()
+			}
 		}
 		if only >= 0 {
 			for _, l := range h.log {
